@@ -54,9 +54,9 @@ example : ∃ c, Choices.generate [0, 1, 2] 2 [[(0, 0)], [(1, 0), (2, 1)]] = .ok
 theorem loopfree_compute_never_raises (node : Node) (cmd : Spec.Cmd)
     (hd : Spec.desugar node = some cmd) (hlf : cmd.loopFree = true)
     (q : Bool) (idx : Nat) (dg : DG.Graph)
-    (hn : Refine.namesOk node = true) (hc : Refine.castOk node = true) :
+    (hn : Refine.namesOk node = true) :
     ∃ out, Analysis.compute q idx dg node = .ok out := by
-  obtain ⟨out, h, _⟩ := compute_refines_loopfree_partial node cmd hd hlf q idx dg hn hc
+  obtain ⟨out, h, _⟩ := compute_refines_loopfree node cmd hd hlf q idx dg hn
   exact ⟨out, h⟩
 
 example : ∃ out, Analysis.compute false 0 []
@@ -64,7 +64,7 @@ example : ∃ out, Analysis.compute false 0 []
       .ifs (.id "c") (some (.assign "=" (.id "y") (.id "x"))) none])) = .ok out :=
   loopfree_compute_never_raises _ _
     (by simp [Spec.desugar, Spec.desugarL, Spec.desugarO, Node.rmCast, Spec.atomOf]; rfl)
-    (by decide) _ _ _ (by decide) (by decide)
+    (by decide) _ _ _ (by decide)
 
 /-- the corrections never raise when the delta graph satisfies its invariant (always true in
     the analysis: the graph is only ever built by `insertNode`/`fusion` from the empty graph) -/
